@@ -18,6 +18,15 @@ from .common import REPO, VERIF, CheckResult, seed
 
 CACHE_DIR = os.path.join(VERIF, ".cache")
 
+ASSUMPTIONS = [
+    "TLC explores SimMC.tla exhaustively only for the small worlds of harness/simmc.py",
+    "trace validation covers the executions actually recorded: generated + directed worlds of harness/worlds.py "
+    "(policies EDF/FIFO/LSF and an arbitrary 'hostile' policy; preemption/migration and profile loading are not modelled)",
+    "the projection of the Simulator's state reads private attributes (_event_queue, _future_placement_events, counters) "
+    "through the add-only tracer harness/simrun.py; scheduler answers, branch draws, runtime fuzz and newly materialised "
+    "task graphs are bound from the log",
+]
+
 # clause (as printed by SimTrace: a pair) -> owning properties
 def owners(clause):
     a, b = clause[0], clause[1]
